@@ -474,6 +474,14 @@ def dual_modules(ctx):
         cov.case(("dual", nr, nc, eta, side, i), merged)
 
 
+
+def prepare(ctx):
+    """Translator tie (see gen_tie.py): the source of this slice is re-translated to Lean on every run
+    (harness/artv/btrans.py) and proved equal to the model the property theorems are about"""
+    from .gen_tie import gen_prepare, extra_theorems
+    from .. import btrans
+    gen_prepare(ctx, extra_theorems("btrans") + [], btrans.COVERS)
+
 def run(ctx):
     from collections import defaultdict
     stats = defaultdict(int)
